@@ -455,9 +455,7 @@ func (b *boundsCtx) factsAt(blk *ssa.BasicBlock) []fact {
 		if iff == nil || a == blk && false {
 			continue
 		}
-		if !a.Dominates(blk) {
-			continue
-		}
+		// (no dominator-tree pre-filter: dominance is taken over feasible edges only, see nonnil.go)
 		for k := 0; k < 2; k++ {
 			if a.Succs[k] == blk && len(blk.Preds) == 1 || DominatedByEdge(fn, first, a, k, PathQ{}) {
 				if a == blk {
